@@ -1,7 +1,42 @@
 import TypstyleModel.Props.C01
-/-! C02 — (partial) see DESIGN.md §4 C02. Foundation: layout soundness and the post-pass. -/
+import TypstyleModel.Model.Printer.Knot
+/-! C02 — formatting never changes what the document compiles to (partial: no model of the Typst
+evaluator exists; proved here is the white-space decision table at the edges of a piece of markup,
+which together with C01/C08/C09/C10 reduces C02 to "evaluation is invariant under tree equivalence and
+under the edge changes this table permits" (A-eval), validated by the compile-and-compare oracle). -/
 namespace Typstyle
 open Pretty
+
+/-- The document is white space (a blank, a line break, or the choice between the two). -/
+def IsWs (d : Twin.Doc) : Prop := d = Twin.space ∨ d = Twin.hardline ∨ d = Twin.line
+
+/-- T2.1a: in a content block or strong/emph body, an edge that had white space in the source
+(possibly behind a comment) gets white space in the output — in the flat and in the broken layout. -/
+theorem C02_edge_space_is_kept (scope : Scope) (isSym hasLB suppressed : Bool) (b : Bound)
+    (hs : scope = .contentBlock ∨ scope = .strong)
+    (hb : b = .spaceOrBreak ∨ b = .brk ∨ b = .weakSpaceOrBreak ∨ b = .weakBreak) :
+    IsWs (getDelim scope isSym hasLB suppressed b) := by
+  rcases hs with rfl | rfl <;> rcases hb with rfl | rfl | rfl | rfl <;>
+    cases isSym <;> cases hasLB <;> cases suppressed <;> simp [getDelim, IsWs]
+
+/-- T2.1b: an edge without white space gets none, in every scope. -/
+theorem C02_edge_without_space_gets_none (scope : Scope) (isSym hasLB suppressed : Bool) :
+    getDelim scope isSym hasLB suppressed .nil = Twin.Doc.nil := by
+  cases scope <;> simp [getDelim]
+
+/-- T2.1c: the only edge where white space may appear that was not in the source is next to a
+list/enum/term item (`nilOrBreak`), and then only as a line break in the broken layout (never a blank). -/
+theorem C02_edge_next_to_item (scope : Scope) (isSym hasLB suppressed : Bool) :
+    getDelim scope isSym hasLB suppressed .nilOrBreak = Twin.Doc.nil ∨
+    getDelim scope isSym hasLB suppressed .nilOrBreak = Twin.line_ := by
+  cases scope <;> cases isSym <;> cases hasLB <;> cases suppressed <;> simp [getDelim]
+
+/-- T2.1d: at the edges of the document and of item bodies (where Typst trims white space) the
+printer emits at most a line break. -/
+theorem C02_document_edges (scope : Scope) (isSym hasLB suppressed : Bool) (b : Bound)
+    (hs : scope = .document ∨ scope = .item) :
+    getDelim scope isSym hasLB suppressed b = Twin.Doc.nil ∨ getDelim scope isSym hasLB suppressed b = Twin.hardline := by
+  rcases hs with rfl | rfl <;> cases b <;> simp [getDelim]
 
 theorem C02_layout_sound (w : Nat) (d : Doc) : Lay .brk d (best w 0 [⟨0, .brk, d⟩]) := pretty_lay w d
 
